@@ -24,8 +24,8 @@ ASSUMPTIONS = ["scope: every automat machine of the client (the thirteen mailbox
                "the cases that call dilate() - the Dilation machines); subchannels are not used by these programs",
                "after the application has observed closure it issues only get_*/close",
                "server `error` replies other than the consequences of a third participant are flagged"]
-FLOORS = {"quick": {"transitions": 60000, "closed_sides": 1000, "dilated_cases": 150, "prompt_race_cases": 50},
-          "thorough": {"transitions": 3000000, "closed_sides": 50000, "dilated_cases": 8000, "prompt_race_cases": 2500}}
+FLOORS = {"quick": {"transitions": 60000, "closed_sides": 1000, "dilated_cases": 150, "prompt_race_cases": 50, "api_calls_from_inside_a_notification": 300},
+          "thorough": {"transitions": 3000000, "closed_sides": 50000, "dilated_cases": 8000, "prompt_race_cases": 2500, "api_calls_from_inside_a_notification": 15000}}
 DOCUMENTED_VERDICTS = ("happy", "LonelyError", "WrongPasswordError", "ServerError", "WelcomeError",
                        "ServerConnectionError")
 WORDS = ["purple", "sausages", "alpha", "beta", "zulu", "absurd"]
@@ -100,7 +100,26 @@ class Prog:
             self.budget["close"] = max(self.budget["close"], 1)
         self.api_exc = []        # unexpected exceptions escaping API calls
         self.ncalls = 0
+        # an application that reacts to what it is told at once: API calls made from inside the delegate's callback
+        # (synchronously, below the library's own frames) or from inside a Deferred callback
+        self.reactive = rng.random() < 0.35
+        self.reentrant_calls = 0
+        self.in_reaction = False
+        if self.reactive:
+            self.app.on_event = self.react
         self.late_code = spec.get("late_code") and name == "B"
+
+    def react(self, kind):
+        if self.in_reaction or self.rng.random() < 0.5:
+            return
+        acts = self.actions()
+        if acts:
+            self.in_reaction = True
+            try:
+                self.reentrant_calls += 1
+                self.rng.choice(acts)[1]()
+            finally:
+                self.in_reaction = False
 
     def observed_closed(self):
         k = self.app.kinds()
@@ -426,7 +445,7 @@ def run_case(spec):
     triples = ["%s.%s/%s" % k for k in MON.cov]
     return {"violations": viol,
             "nontrivial": trace_digest(sch) if ntrans >= 25 else None,
-            "counters": {"transitions": ntrans, "api_calls": sum(p.ncalls for p in drv.progs),
+            "counters": {"transitions": ntrans, "api_calls": sum(p.ncalls for p in drv.progs), "api_calls_from_inside_a_notification": sum(p.reentrant_calls for p in drv.progs),
                          "closed_sides": sum(int(p.app.closed) for p in drv.progs),
                          "never_closed_sides": sum(int(not p.app.closed) for p in drv.progs),
                          "drops": drv.drops, "third_clients": int(len(drv.progs) > 2),
